@@ -429,6 +429,10 @@ CHECKS["C15"] = {
             "Program x: try_except_ around a NON-capturing map_ (3 dictionary scripts x throw masks, one thrower per cycle): the failure surfaces once on "
             "the try_except_ error output in the throwing cycle, and in every other cycle each key's child ticks exactly as in the fault-free run "
             "(found and fixed 29d0ffc: a sibling key due in the failing cycle lost its next tick). "
+            "Programs y / z: try_except_ around a sub-graph with two INDEPENDENT parts, a self-scheduling node (re-emits y two steps later) and a failing "
+            "sink on x, the timer node ranked before (y) or after (z) the sink; every tick pattern of x and y x every subset of x's ticks throwing (z: only "
+            "cycles in which the timer node is not itself due): outside the throwing cycles the timer node's stream is the fault-free one "
+            "(found and fixed 46a0926: with the timer node ranked behind the failing one its pending wake-up was dropped). "
             "non-trivial = at least one throwing evaluation.",
     "bounds": {"quick": "T=5; try_except programs with inputs ticking in cycle 0; map: key 1 all 32 subsets, keys 2-3 8 subsets", "thorough": "all input patterns; map: 32^3 subsets"},
     "min_counters": {"quick": {"nontrivial": 4000, "capture.cases_m": 1000, "capture.cases_2": 200}},
